@@ -496,7 +496,7 @@ theorem resourceName_proper (fs : Fs) (v : View) (hw : WfView v) (slash : Bool) 
     obtain ⟨dl, dne⟩ := getLast?_joinWith_ne _ d1 d2
     rw [← d3] at dl dne
     simp only [if_true]
-    have hrp : rstripSlash v.docroot ++ '/' :: joinWith '/' segs = nameOf v segs := by simp [nameOf, hp]
+    have hrp : pkgResourcePath v.docroot (joinWith '/' segs) = nameOf v segs := by simp [pkgResourcePath, dne, nameOf, hp]
     rw [hrp]
     have hq : resourceFilename v.base (nameOf v segs) = osPath v (nameOf v segs) := by simp [osPath, hp]
     rw [hq]
@@ -513,7 +513,8 @@ theorem resourceName_proper (fs : Fs) (v : View) (hw : WfView v) (slash : Bool) 
         simp [nameOf, hp, joinWith]
       · obtain ⟨sl, sne⟩ := getLast?_joinWith_ne segs hsn hs'
         have hlast : (nameOf v segs).getLast? ≠ some '/' := by
-          rw [← hrp, getLast?_append_ne _ _ (by simp), List.getLast?_cons_of_ne_nil sne]; exact sl
+          have hn : nameOf v segs = rstripSlash v.docroot ++ '/' :: joinWith '/' segs := by simp [nameOf, hp]
+          rw [hn, getLast?_append_ne _ _ (by simp), List.getLast?_cons_of_ne_nil sne]; exact sl
         rw [rstripSlash_of_last _ hlast]
         simp only [nameOf, hp, if_true]
         rw [joinWith_append '/' _ _ hsn (by simp)]
